@@ -316,6 +316,13 @@ def run(ctx) -> None:
             r1.violation(w, loops[0][0], "write_hr_file's inline copy de-interleaves differently from write_WCC_WT_format")
     if wslices is None:
         raise AnalysisError("no Wannier-centre writer loops found")
+    # the table of centres is two-dimensional for every number of lines (np.loadtxt squeezes a one-line file to shape (3,))
+    for c_ in ast.walk(rd.node):
+        if isinstance(c_, ast.Call) and call_name(c_) in ("np.loadtxt", "np.genfromtxt", "numpy.loadtxt", "numpy.genfromtxt"):
+            nd_ = kwarg(c_, "ndmin")
+            wrapped_ = any(isinstance(p_, ast.Call) and call_name(p_) in ("np.atleast_2d", "numpy.atleast_2d") and any(x_ is c_ for x_ in ast.walk(p_)) for p_ in ast.walk(rd.node))
+            r1.check((nd_ is not None and const_of(nd_) == 2) or wrapped_, "the centre table is read as a 2-D array whatever the number of centres", rd, c_,
+                     f"`{norm1(c_, 80)}` returns a 1-D array for a file with a single centre: the even/odd de-interleaving then runs over the x, y, z components of that centre")
     # reader
     asg = [s for s in stmts(rd.node) if isinstance(s, ast.Assign) and isinstance(s.targets[0], ast.Subscript)
            and isinstance(s.targets[0].slice, ast.Slice) and isinstance(s.value, ast.Subscript)
